@@ -42,6 +42,25 @@ Theorem C20_mix_split_other_package : forall n ins split m pos,
 Proof. exact mix_split_other_lemma. Qed.
 Print Assumptions C20_mix_split_other_package.
 
+(* MultiStream top outlet; inlets in any of the phases L, g, l, s (codes 0..3), on any property package: summed over all
+   phases, top + bottom = sum of ALL inlets per chemical and the top holds split * mixed -- whether an inlet's phase is
+   owned by the top, is the other-case twin of an owned phase, or is new; previous outlet contents are gone *)
+Theorem C20_mix_split_multi_conserves : forall n present inl split,
+  (forall i, In i inl -> (fst i < 4)%nat /\ length (snd i) = n) -> length split = n ->
+  let x := mix_and_split_multi n present inl split in
+  forall j, colsum (x_top x) j + colsum (x_bot x) j == colsum (map snd inl) j /\
+            colsum (x_top x) j == nthq split j * colsum (map snd inl) j.
+Proof. exact mix_split_multi_lemma. Qed.
+Print Assumptions C20_mix_split_multi_conserves.
+
+(* the phase set of the receiver only grows and every inlet phase has a row: its own or its other-case twin *)
+Theorem C20_mix_phases_grow : forall present inl p,
+  (p < 4)%nat -> length present = 4%nat ->
+  (nthb present p = true -> nthb (grow_phases present inl) p = true) /\
+  (forall v, In (p, v) inl -> nthb (grow_phases present inl) (row_of (grow_phases present inl) p) = true).
+Proof. exact grow_phases_lemma. Qed.
+Print Assumptions C20_mix_phases_grow.
+
 (* ------------------------------------------------------------------ handle_infeasible_flow_rates *)
 (* a normal return leaves every entry in [0, maxmol] *)
 Theorem C20_clip_range : forall mol maxmol strict,
@@ -541,6 +560,12 @@ Proof.
   destruct k1 as [|[|[|k1]]]; destruct k2 as [|[|[|k2]]]; simpl in *; try congruence;
     try (destruct k1; discriminate); try (destruct k2; discriminate).
 Qed.
+
+(* ('g','l') MultiStream top, an 'l' inlet and an 'L' inlet: the 'L' flows land in the 'l' row, nothing is lost *)
+Example C20_ex_mix_split_multi :
+  xsplit_eqb (mix_and_split_multi 2 [false; true; true; false] [(2%nat, [1; 2]); (0%nat, [0; 4])] [1 # 2; 1 # 2])
+             [false; true; true; false] [[0; 0]; [0; 0]; [1 # 2; 3]; [0; 0]] [[0; 0]; [0; 0]; [1 # 2; 3]; [0; 0]] = true.
+Proof. reflexivity. Qed.
 
 (* clipping: negative K makes a bottom flow negative; strict raises, non-strict clips with a warning *)
 Example C20_ex_partition_infeasible :
